@@ -99,6 +99,21 @@ class Impl:
             except BaseException as e:  # noqa: BLE001
                 return {"err": "Other:" + type(e).__name__}
             return {"ok": C.filter_to_json(f)}
+        if op == "stext":
+            import p_schema as PS
+
+            return {"text": PS.cps(str(PS.def_from_json(j["kind"], j["def"])))}
+        if op == "sparse":
+            import p_schema as PS
+
+            text = PS.uncps(j["cps"])
+            try:
+                d = PS.CLS[j["kind"]].from_string(text)
+            except ValueError:
+                return {"err": "ValueError"}
+            except BaseException as e:  # noqa: BLE001
+                return {"err": "Other:" + type(e).__name__}
+            return {"ok": PS.def_to_json(d)}
         if op == "attr_valid":
             from sansldap import _filter as F
 
